@@ -216,6 +216,16 @@ Lemma lookup_reg_freq k cols f u :
   lookup u (reg_freq k cols f) = cnt (map (fun s => to_dec (take_cols cols (to_bin k s))) (expand f)) u.
 Proof. unfold reg_freq. now rewrite lookup_reg_freq_acc. Qed.
 
+Lemma total_reg_freq k cols f : total (reg_freq k cols f) = total f.
+Proof.
+  unfold reg_freq.
+  assert (H : forall acc, total (fold_left (fun acc p => bump (to_dec (take_cols cols (to_bin k (fst p)))) (snd p) acc) f acc)
+                          = total acc + total f).
+  { induction f as [|[v c] f IH]; intros acc; cbn [fold_left]; [cbn; lia|].
+    rewrite IH, total_bump. cbn [total fold_right fst snd]. fold (total f). lia. }
+  rewrite H. reflexivity.
+Qed.
+
 Lemma nodup_reg_freq k cols f : NoDup (keys (reg_freq k cols f)).
 Proof.
   unfold reg_freq.
